@@ -69,9 +69,23 @@ func isModelledPkg(path string) bool {
 }
 
 // wantInit: which packages get their (own, non-transitive) initialiser run lazily.
+// packages whose functions are interpreted but whose initialisers are skipped
+// (they only register reflection metadata)
+var noInitPrefixes = []string{
+	"github.com/wealdtech/eth2-signer-api",
+	"google.golang.org/protobuf",
+	"google.golang.org/genproto",
+	"github.com/golang/protobuf",
+}
+
 func (P *Program) wantInit(path string) bool {
 	if P.initAllow[path] {
 		return true
+	}
+	for _, p := range noInitPrefixes {
+		if path == p || strings.HasPrefix(path, p+"/") {
+			return false
+		}
 	}
 	if isStdlib(path) || isNoopPkg(path) || isModelledPkg(path) {
 		return false
